@@ -803,7 +803,7 @@ def %s(f, s):
     harness(name, {"f": "obj:LocalBioFilter", "s": "str"}, src, requires=req, self_config={"run": run, "gc": gc, "motifs": motifs}, loops=loops)
 
 
-C12_SHAPES = [(r, g, m) for r in (False, True) for g in (False, True) for m in (None, 0, 1, 2)]
+C12_SHAPES = [(r, g, m) for r in (False, True) for g in (False, True) for m in (None, 0, 1, 2, 3)]
 for _r, _g, _m in C12_SHAPES:
     c12_window_of_valid(_r, _g, _m)
     c12_valid_of_windows(_r, _g, _m)
